@@ -126,6 +126,61 @@ fn answers(host: &AnalysisHost, files: &Files, reverse: bool, filler: usize) -> 
     out
 }
 
+/// the text with every single-letter lowercase word (a type variable as glas displays it) renamed by first occurrence;
+/// a word directly after `fn ` is a function's name and is kept
+fn alpha_types(s: &str) -> String {
+    let mut out = String::new();
+    let mut names: Vec<char> = vec![];
+    let cs: Vec<char> = s.chars().collect();
+    let mut i = 0;
+    while i < cs.len() {
+        let c = cs[i];
+        let word_start = (c.is_alphanumeric() || c == '_') && (i == 0 || !(cs[i - 1].is_alphanumeric() || cs[i - 1] == '_'));
+        if word_start {
+            let mut j = i;
+            while j < cs.len() && (cs[j].is_alphanumeric() || cs[j] == '_') { j += 1; }
+            let after_fn = i >= 3 && cs[i - 3..i] == ['f', 'n', ' '];
+            if j - i == 1 && c.is_ascii_lowercase() && !after_fn {
+                let k = names.iter().position(|n| *n == c).unwrap_or_else(|| { names.push(c); names.len() - 1 });
+                out.push_str(&format!("'{k}"));
+            } else {
+                out.extend(&cs[i..j]);
+            }
+            i = j;
+        } else {
+            out.push(c);
+            i += 1;
+        }
+    }
+    out
+}
+
+/// do the `import` lines of the modules form a cycle (a self-import included)?
+fn import_cycle(files: &Files) -> bool {
+    let names: Vec<&str> = files.iter().map(|(n, _)| n.as_str()).collect();
+    let edges: Vec<Vec<usize>> = files.iter().map(|(_, t)| {
+        let w: Vec<&str> = t.split_whitespace().collect();
+        let mut e = vec![];
+        for k in 0..w.len() {
+            if w[k] == "import" {
+                if let Some(m) = w.get(k + 1) {
+                    if let Some(j) = names.iter().position(|n| n == m) { e.push(j); }
+                }
+            }
+        }
+        e
+    }).collect();
+    for start in 0..files.len() {
+        let mut seen = vec![false; files.len()];
+        let mut todo = edges[start].clone();
+        while let Some(x) = todo.pop() {
+            if x == start { return true; }
+            if !seen[x] { seen[x] = true; todo.extend(edges[x].iter().copied()); }
+        }
+    }
+    false
+}
+
 fn main() {
     quiet_panics();
     let args: Vec<String> = std::env::args().collect();
@@ -231,7 +286,10 @@ fn main() {
                     for (((k, a), (_, b)), (_, c2)) in long.iter().zip(f1.iter()).zip(f2.iter()) {
                         if a != b || b != c2 {
                             let what = if b != c2 { "fresh analyses disagree (query order)" } else { "long-lived analysis differs from fresh" };
-                            local.push(json!({"kind": "mismatch", "prop": "C11", "features": {"what": what, "query": k.split('/').nth(1), "op": kind},
+                            // do the answers differ only in the letters chosen for type variables?  is there an import cycle?
+                            let alpha_equivalent = alpha_types(a) == alpha_types(b) && alpha_types(b) == alpha_types(c2);
+                            local.push(json!({"kind": "mismatch", "prop": "C11", "features": {"what": what, "query": k.split('/').nth(1), "op": kind,
+                                    "alpha_equivalent": alpha_equivalent, "import_cycle": import_cycle(&files)},
                                 "detail": {"case": case, "step": si, "query": k, "long_lived": a.chars().take(400).collect::<String>(),
                                            "fresh": b.chars().take(400).collect::<String>(), "fresh_reverse": c2.chars().take(400).collect::<String>()}}));
                             break;
